@@ -159,7 +159,8 @@ def check_stream(case):
         task = loop.create_task(handler.wait_for_messages())
         loop.drain()
         ref = refclient.RefClient()
-        data = b""
+        # (a peer that writes Latin-1 says so)
+        data = b'<?xml version="1.0" encoding="ISO-8859-1"?>\n' if case.get("rename") == 3 else b""
         for it in case["items"] + [{"spec": SENTINEL, "choices": None}]:
             data += streams.to_wire(it, latin1=case.get("rename") == 3)
             ref.apply(it["spec"])
